@@ -139,11 +139,11 @@ package elastic
 //@ func (mb *Buffer) Buffered() int
 //@   requires bwf(mb)
 //@   arith unchecked byte counters stay far below 2^63
-//@   ensures res == bcnt(mb)
+//@   ensures res == bcnt(mb) && res >= 0
 //
 //@ func (mb *Buffer) IsEmpty() bool
 //@   requires bwf(mb)
-//@   ensures res <==> bcnt(mb) == 0
+//@   ensures (res <==> bcnt(mb) == 0) && bcnt(mb) >= 0
 //
 //@ func (mb *Buffer) Read(p []byte) (n int, err error)
 //@   requires bwf(mb) && linkedlist.noalias(mb.listBuffer, p) && (mb.ringBuffer.rb == nil || disjoint(p, mb.ringBuffer.rb.buf))
@@ -155,6 +155,7 @@ package elastic
 //@   ensures forall i :: 0 <= i && i < n ==> p[i] == old(bat(mb, i))
 //@   ensures forall i :: 0 <= i && i < bcnt(mb) ==> bat(mb, i) == old(bat(mb, n + i))
 //@   ensures mb.ringBuffer.rb == old(mb.ringBuffer.rb) || mb.ringBuffer.rb == nil
+//@   ensures forall a Ref :: lbufs[mb.listBuffer][a] <==> old(lbufs[mb.listBuffer])[a]
 //
 //@ func (mb *Buffer) Discard(n int) (discarded int, err error)
 //@   requires bwf(mb)
@@ -165,6 +166,7 @@ package elastic
 //@   ensures bwf(mb) && discarded == (n <= 0 ? 0 : min(n, old(bcnt(mb)))) && bcnt(mb) == old(bcnt(mb)) - discarded
 //@   ensures forall i :: 0 <= i && i < bcnt(mb) ==> bat(mb, i) == old(bat(mb, discarded + i))
 //@   ensures mb.ringBuffer.rb == old(mb.ringBuffer.rb) || mb.ringBuffer.rb == nil
+//@   ensures forall a Ref :: lbufs[mb.listBuffer][a] <==> old(lbufs[mb.listBuffer])[a]
 //
 //@ func (mb *Buffer) Write(p []byte) (n int, err error)
 //@   requires bwf(mb) && (mb.ringBuffer.rb == nil || disjoint(p, mb.ringBuffer.rb.buf))
@@ -176,6 +178,8 @@ package elastic
 //@   ensures forall i :: 0 <= i && i < old(bcnt(mb)) ==> bat(mb, i) == old(bat(mb, i))
 //@   ensures forall j :: 0 <= j && j < len(p) ==> bat(mb, old(bcnt(mb)) + j) == p[j]
 //@   ensures mb.ringBuffer.rb == old(mb.ringBuffer.rb) || fresh(mb.ringBuffer.rb)
+//@   ensures forall a Ref :: (old(lbufs[mb.listBuffer])[a] ==> lbufs[mb.listBuffer][a]) && (lbufs[mb.listBuffer][a] ==> old(lbufs[mb.listBuffer])[a] || fresh(a))
+//@   ensures mb.ringBuffer.rb != nil ==> (mb.ringBuffer.rb == old(mb.ringBuffer.rb) && same(mb.ringBuffer.rb.buf, old(mb.ringBuffer.rb.buf))) || fresh(mb.ringBuffer.rb.buf)
 //
 //@ func (mb *Buffer) ReadFrom(r io.Reader) (n int64, err error)
 //@   requires bwf(mb) && r != nil
@@ -187,6 +191,8 @@ package elastic
 //@   ensures forall i :: 0 <= i && i < old(bcnt(mb)) ==> bat(mb, i) == old(bat(mb, i))
 //@   ensures forall j :: 0 <= j && j < n ==> bat(mb, old(bcnt(mb)) + j) == rdata[ref(r)][old(rpos[ref(r)]) + j]
 //@   ensures mb.ringBuffer.rb == old(mb.ringBuffer.rb) || fresh(mb.ringBuffer.rb)
+//@   ensures forall a Ref :: (old(lbufs[mb.listBuffer])[a] ==> lbufs[mb.listBuffer][a]) && (lbufs[mb.listBuffer][a] ==> old(lbufs[mb.listBuffer])[a] || fresh(a))
+//@   ensures mb.ringBuffer.rb != nil ==> (mb.ringBuffer.rb == old(mb.ringBuffer.rb) && same(mb.ringBuffer.rb.buf, old(mb.ringBuffer.rb.buf))) || fresh(mb.ringBuffer.rb.buf)
 //
 //@ func (mb *Buffer) WriteTo(w io.Writer) (n int64, err error)
 //@   requires bwf(mb) && w != nil
@@ -201,6 +207,7 @@ package elastic
 //@   ensures old(bcnt(mb)) > 0 && !wfail[ref(w)] ==> err == nil && n == old(bcnt(mb))
 //@   ensures err == nil ==> n == old(bcnt(mb))
 //@   ensures mb.ringBuffer.rb == old(mb.ringBuffer.rb) || mb.ringBuffer.rb == nil
+//@   ensures forall a Ref :: lbufs[mb.listBuffer][a] <==> old(lbufs[mb.listBuffer])[a]
 //
 //@ func (mb *Buffer) Reset(maxStaticBytes int)
 //@   requires bwf(mb)
@@ -209,6 +216,7 @@ package elastic
 //@   modifies-each x *linkedlist.node where linkedlist.mine(mb.listBuffer, x) :: buf, next
 //@   ensures bwf(mb) && bcnt(mb) == 0
 //@   ensures mb.ringBuffer.rb == old(mb.ringBuffer.rb)
+//@   ensures forall a Ref :: lbufs[mb.listBuffer][a] <==> old(lbufs[mb.listBuffer])[a]
 //
 //@ func (mb *Buffer) Release()
 //@   requires bwf(mb)
@@ -216,6 +224,7 @@ package elastic
 //@   modifies mb.listBuffer.*, lnodes[mb.listBuffer], lpoff[mb.listBuffer], lview[mb.listBuffer], npos[mb.listBuffer], nown, lbufs[mb.listBuffer]
 //@   modifies-each x *linkedlist.node where linkedlist.mine(mb.listBuffer, x) :: buf, next
 //@   ensures bwf(mb) && bcnt(mb) == 0 && mb.ringBuffer.rb == nil
+//@   ensures forall a Ref :: lbufs[mb.listBuffer][a] <==> old(lbufs[mb.listBuffer])[a]
 //
 // Peek and Writev speak about the concatenation of [][]byte segments (abstract functions seglen / segbyte).
 // Their bodies are not verified (noverify): they are covered by the bounded stand-in bounded/elastic_peek_writev_test.go;
@@ -224,8 +233,8 @@ package elastic
 //@   noverify concatenation of [][]byte segments; covered by a bounded stand-in, not proved
 //@   requires bwf(mb)
 //@   ensures n > 0 && n != 2147483647 && n > bcnt(mb) ==> len(res) == 0 && err == io.ErrShortBuffer
-//@   ensures !(n > 0 && n != 2147483647 && n > bcnt(mb)) && bcnt(mb) <= 2147483647 ==> err == nil &&
-//@        seglen(res) == ((n <= 0 || n == 2147483647) ? bcnt(mb) : n) && (bcnt(mb) > 0 ==> len(res) >= 1)
+//@   ensures !(n > 0 && n != 2147483647 && n > bcnt(mb)) ==> err == nil &&
+//@        seglen(res) == min(bcnt(mb), (n <= 0 || n == 2147483647) ? 2147483647 : n) && (bcnt(mb) > 0 ==> len(res) >= 1)
 //@   ensures forall y :: 0 <= y && y < seglen(res) ==> segbyte(res, y) == bat(mb, y)
 //@   ensures len(res) == 0 || fresh(res)
 //
@@ -238,5 +247,6 @@ package elastic
 //@   ensures bwf(mb) && n == seglen(bs) && err == nil && bcnt(mb) == old(bcnt(mb)) + seglen(bs)
 //@   ensures forall i :: 0 <= i && i < old(bcnt(mb)) ==> bat(mb, i) == old(bat(mb, i))
 //@   ensures forall y :: 0 <= y && y < seglen(bs) ==> bat(mb, old(bcnt(mb)) + y) == segbyte(bs, y)
-
+//@   ensures forall a Ref :: (old(lbufs[mb.listBuffer])[a] ==> lbufs[mb.listBuffer][a]) && (lbufs[mb.listBuffer][a] ==> old(lbufs[mb.listBuffer])[a] || fresh(a))
 //@   ensures mb.ringBuffer.rb == old(mb.ringBuffer.rb) || fresh(mb.ringBuffer.rb)
+//@   ensures mb.ringBuffer.rb != nil ==> (mb.ringBuffer.rb == old(mb.ringBuffer.rb) && same(mb.ringBuffer.rb.buf, old(mb.ringBuffer.rb.buf))) || fresh(mb.ringBuffer.rb.buf)
